@@ -947,6 +947,7 @@ class TrigInfo:
         self.setup_ok = False
         self.run_on_startup = False
         self.run_on_shutdown = False
+        self.started = False
 
         if self.state_active is not None:
             self.active_expr = AstEval(
@@ -1062,7 +1063,8 @@ class TrigInfo:
             if self.task:
                 Function.reaper_cancel(self.task)
                 self.task = None
-        if self.run_on_shutdown:
+        if self.run_on_shutdown and self.started:
+            # (a trigger that never started - its file failed to load - has nothing to shut down)
             notify_type = "shutdown"
             notify_info = {"trigger_type": "time", "trigger_time": "shutdown"}
             notify_info.update(self.time_trigger_kwargs.get("kwargs") or {})
@@ -1073,6 +1075,7 @@ class TrigInfo:
         """Start this trigger task."""
         if not self.task and self.setup_ok:
             self.task = Function.create_task(self.trigger_watch())
+            self.started = True
             _LOGGER.debug("trigger %s is active", self.name)
 
     async def trigger_watch(self):
